@@ -590,6 +590,7 @@ class Unit:
         """Returns (text, meta).  meta: functions (with generated line ranges), extraction notes."""
         specs = parse_vspec(os.path.join(self.dir, "contracts.vspec"))
         slots = {}
+        has = {}     # optional methods: "item::method" -> present in the repository text?
         fns = []
         notes = []
         deviations = []
@@ -642,7 +643,13 @@ class Unit:
                 for extra in item.get("assoc", []):
                     a = find_item(loc, relfile, item["path"] + "::" + extra)
                     parts.append(("text", "    " + src[a["item_start"]:a["end"]].strip() + "\n"))
-                for m in item["methods"]:
+                for m in item.get("optional_methods", []):
+                    # a method the impl may or may not override (the trait has a default): extracted when present;
+                    # the prelude can ask with /*@@HAS id::m@@*/ and supply the default with //@@IFMISSING id::m@@
+                    present = bool(loc["by_path"].get(item["path"] + "::" + m))
+                    has[f"{iid}::{m}"] = present
+                    deviations.append(f"{iid}::{m}: optional method, {'present in' if present else 'ABSENT from'} `{item['path']}` (absent = the trait default applies)")
+                for m in list(item["methods"]) + [m for m in item.get("optional_methods", []) if has.get(f"{iid}::{m}")]:
                     mit = find_item(loc, relfile, item["path"] + "::" + m)
                     key = f"{iid}::{m}"
                     ef = ExtractedFn(relfile, loc, mit, key, specs.get(key))
@@ -681,7 +688,7 @@ class Unit:
                 fns.append(ef)
                 slots[iid] = [("fn", ef)]
         for k, s in specs.items():
-            if not s.used:
+            if not s.used and k not in has:
                 raise Undecided(f"unit {self.name}: contract section `{k}` matches no extracted function")
         prelude = read(os.path.join(self.dir, "prelude.rs"))
         out = []
@@ -693,7 +700,22 @@ class Unit:
             out.append(text)
             line += text.count("\n")
 
+        def _has(mm):
+            if mm.group(1) not in has:
+                raise Undecided(f"unit {self.name}: prelude asks HAS {mm.group(1)}, which is not an optional method of an item")
+            return "true" if has[mm.group(1)] else "false"
+
         for pl in prelude.split("\n"):
+            pl = re.sub(r"/\*@@HAS\s+(\S+)@@\*/", _has, pl)
+            mi = re.match(r"\s*//@@IFMISSING\s+(\S+)@@\s?(.*)$", pl)
+            if mi:
+                if mi.group(1) not in has:
+                    raise Undecided(f"unit {self.name}: prelude asks IFMISSING {mi.group(1)}, which is not an optional method of an item")
+                if not has[mi.group(1)]:
+                    emit(mi.group(2) + "    // the trait's default (the impl does not override it)\n")
+                else:
+                    emit("\n")
+                continue
             m = re.match(r"\s*//@@(EXTRACT|SPEC)\s+(\S+)@@\s*$", pl)
             if not m:
                 emit(pl + "\n")
